@@ -84,3 +84,59 @@ Proof.
   exists n, m. split; [exact En|]. split; [exact Em|].
   rewrite Pm, Pn, !map_app. cbn [map]. rewrite !fold_left_snoc. apply upd_p_idem. exact Hw.
 Qed.
+
+(* ---------- an empty mapping document, at any position, changes nothing below the root ---------- *)
+Definition kids (d : pp) : list (key * pp) := match d with PPD _ kv => kv | PPS _ _ => [] end.
+
+Lemma kids_upd_p a a' b : is_PPD a = true -> is_PPD a' = true -> is_PPD b = true -> kids a = kids a' -> kids (upd_p a b) = kids (upd_p a' b).
+Proof. destruct a, a', b; try discriminate. intros _ _ _ E. cbn [kids] in E. subst. rewrite !upd_p_DD. reflexivity. Qed.
+
+Lemma kids_fold : forall l a a', is_PPD a = true -> is_PPD a' = true -> forallb is_PPD l = true -> kids a = kids a' ->
+  kids (fold_left upd_p l a) = kids (fold_left upd_p l a') /\ is_PPD (fold_left upd_p l a) = true.
+Proof.
+  induction l as [|b l IH]; intros a a' Ha Ha' Hl E; cbn [fold_left]; [auto|].
+  cbn [forallb] in Hl. apply andb_true_iff in Hl. destruct Hl as [Hb Hl].
+  apply IH; [apply upd_p_PPD; assumption|apply upd_p_PPD; assumption|exact Hl|apply kids_upd_p; assumption].
+Qed.
+
+Lemma kids_empty a p : is_PPD a = true -> kids (upd_p a (PPD p [])) = kids a /\ is_PPD (upd_p a (PPD p [])) = true.
+Proof. destruct a; [discriminate|]. intros _. rewrite upd_p_DD. auto. Qed.
+
+Theorem empty_doc_neutral_prio d0 l1 l2 p :
+  is_PPD d0 = true -> forallb is_PPD l1 = true -> forallb is_PPD l2 = true ->
+  kids (fold_left upd_p (l1 ++ PPD p [] :: l2) d0) = kids (fold_left upd_p (l1 ++ l2) d0).
+Proof.
+  intros H0 H1 H2. rewrite !fold_left_app. cbn [fold_left].
+  destruct (kids_fold l1 d0 d0 H0 H0 H1 eq_refl) as [_ Ha].
+  destruct (kids_empty (fold_left upd_p l1 d0) p Ha) as [Ek Hp].
+  apply (kids_fold l2 _ _ Hp Ha H2 Ek).
+Qed.
+
+Lemma forallb_dictk_ppd : forall l, Forall NewZ l -> forallb is_dictk l = true -> forallb is_PPD (map perase l) = true.
+Proof.
+  induction l as [|n l IH]; intros HF HD; cbn [map forallb] in *; [reflexivity|].
+  inversion HF as [|? ? Hn HF']; subst. apply andb_true_iff in HD. destruct HD as [A B].
+  rewrite <- (is_dictk_perase n (NewZ_oldz _ Hn)), A. cbn [andb]. auto.
+Qed.
+
+(* an empty mapping document (any flags of the class) inserted after the first document changes no value and no priority below the root *)
+Theorem empty_doc_neutral_flatten e s0 l1 l2 fE xE :
+  Forall NewZ (s0 :: l1 ++ Comp CDict fE xE [] :: l2) -> forallb is_dictk (s0 :: l1 ++ l2) = true ->
+  exists n m, flatten e (s0 :: l1 ++ Comp CDict fE xE [] :: l2) = Ok n /\ flatten e (s0 :: l1 ++ l2) = Ok m /\
+              kids (perase n) = kids (perase m).
+Proof.
+  intros HF HD.
+  assert (HF' : Forall NewZ (s0 :: l1 ++ l2)).
+  { inversion HF as [|? ? H0 HR]; subst. constructor; [exact H0|]. apply Forall_app in HR. destruct HR as [A B]. inversion B; subst. apply Forall_app. auto. }
+  assert (HD' : forallb is_dictk (s0 :: l1 ++ Comp CDict fE xE [] :: l2) = true).
+  { cbn [forallb] in *. apply andb_true_iff in HD. destruct HD as [A B]. rewrite A. cbn [andb]. rewrite forallb_app in *. apply andb_true_iff in B. destruct B as [B1 B2].
+    rewrite B1. cbn [forallb andb is_dictk is_listk negb]. exact B2. }
+  destruct (flatten_prio e s0 _ HF HD') as (n & En & Pn). destruct (flatten_prio e s0 _ HF' HD) as (m & Em & Pm).
+  exists n, m. split; [exact En|]. split; [exact Em|]. rewrite Pn, Pm, !map_app. cbn [map]. rewrite perase_comp. cbn [pch map].
+  inversion HF' as [|? ? H0 HR]; subst. cbn [forallb] in HD. apply andb_true_iff in HD. destruct HD as [A B].
+  apply Forall_app in HR. destruct HR as [R1 R2]. rewrite forallb_app in B. apply andb_true_iff in B. destruct B as [B1 B2].
+  apply empty_doc_neutral_prio.
+  - rewrite <- (is_dictk_perase s0 (NewZ_oldz _ H0)). exact A.
+  - apply forallb_dictk_ppd; assumption.
+  - apply forallb_dictk_ppd; assumption.
+Qed.
